@@ -185,7 +185,7 @@ def run(ctx):
                         pre.append(d + '/stale_pre.txt')
             case = {'files': files, 'cwd': 'work' if style == 'cwd' else '.', 'options': {'generate': gen},
                     'ops': [['parse', ('../' if style == 'cwd' else '') + 'main.pydjinni']] + [['generate', t, clean] for t in targets] + [['report']],
-                    'report_file': 'report/files.' + fmt, 'preexisting': pre, 'include_support': False, 'keep_content': False}
+                    'report_file': 'report/files.' + fmt, 'preexisting': pre, 'include_support': True, 'keep_content': False}
             if style == 'cwd':
                 case['files'] = dict(files); case['files']['work/.keep'] = ''
             pcases.append(case)
@@ -264,8 +264,11 @@ def run(ctx):
             ctx.add_violation({'kind': 'report-files-differ', 'missing': bool(miss), 'extra': bool(extra)},
                               'report lists %d files, %d were written; not listed: %s; listed but not written: %s' %
                               (len(listed), sum(logged.values()), [os.path.relpath(x, root) for x in miss[:4]], [os.path.relpath(x, root) for x in extra[:4]]), rep0)
-        if set(rp.get('generated', {})) != {g for g in used if any(True for _ in [0])} & set(rp.get('generated', {})) | (set(rp.get('generated', {})) - used):
-            pass
+        # every listed file exists when the run is over (support-library copies included: a copy that is recorded but not made is a lie)
+        gone = sorted(x for x in set(listed) if os.path.relpath(x, root) not in o['tree'])
+        if gone:
+            ctx.add_violation({'kind': 'report-lists-file-that-does-not-exist', 'support_lib': any('pydjinni' in os.path.relpath(x, root).split(os.sep) for x in gone)},
+                              'the report lists %d files that do not exist after the run: %s' % (len(gone), [os.path.relpath(x, root) for x in gone[:4]]), rep0)
         unused_listed = set(rp.get('generated', {})) - used
         if unused_listed:
             ctx.add_violation({'kind': 'report-lists-unused-generator'}, 'sections %s although only %s were generated' % (sorted(unused_listed), sorted(used)), rep0)
